@@ -109,7 +109,7 @@ func parseContractFile(path, pkgPath string) ([]*Contract, error) {
 		switch cl.Kind {
 		case "requires":
 			cur.Requires = append(cur.Requires, cl)
-		case "ensures", "lemma":
+		case "ensures", "lemma", "apply":
 			cur.Ensures = append(cur.Ensures, cl)
 		case "modifies":
 			cur.Modifies = append(cur.Modifies, cl)
@@ -155,7 +155,7 @@ func parseContractFile(path, pkgPath string) ([]*Contract, error) {
 		case "func":
 			cur = &Contract{Func: pkgPath + "." + strings.TrimSpace(rest), Loops: map[int][]*Clause{}, File: path, Nullable: map[string]bool{}, Outbuf: map[string]bool{}}
 			out = append(out, cur)
-		case "requires", "ensures", "modifies", "inputsize", "lemma", "trigger":
+		case "requires", "ensures", "modifies", "inputsize", "lemma", "trigger", "apply":
 			if cur == nil {
 				return nil, fmt.Errorf("%s:%d: clause outside func block", path, ln+1)
 			}
@@ -272,7 +272,7 @@ func (cl *Clause) parse() error {
 		for _, p := range strings.Split(head, "+") {
 			cl.Props = append(cl.Props, p)
 		}
-	} else if cl.Kind == "ensures" || cl.Kind == "invariant" || cl.Kind == "lemma" {
+	} else if cl.Kind == "ensures" || cl.Kind == "invariant" || cl.Kind == "lemma" || cl.Kind == "apply" {
 		return fmt.Errorf("clause needs a [label]: %s", cl.Text)
 	}
 	// strip trailing comment
